@@ -74,6 +74,7 @@ impl World for WorldI {
             }
             payloads.push(v);
         }
+        payloads.push(vec![]); // Some(empty) must behave like no data
         let mut initial_trusted: Vec<u8> = vec![];
         for c in 0..CHAINS.len() as u8 {
             if rng.chance(1, 2) {
@@ -143,7 +144,7 @@ impl World for WorldI {
                     chain: if !cfg.initial_trusted.is_empty() && rng.chance(2, 3) { *rng.pick(&cfg.initial_trusted) } else { rng.below(CHAINS.len() as u64) as u8 },
                     dst: rng.below(4) as u8,
                     amount: match rng.weighted(&[1, 1, 8, 2, 2]) { 0 => IAmt::Zero, 1 => IAmt::Neg, 2 => IAmt::Lit(rng.range(1, 500) as i64), 3 => IAmt::Balance, _ => IAmt::BalancePlus1 },
-                    data: if rng.chance(1, 3) { Some(rng.below(3) as u8) } else { None },
+                    data: if rng.chance(1, 3) { Some(rng.below(4) as u8) } else { None },
                     gas_tok: if rng.chance(3, 4) { rng.below(2) as u8 } else { rng.below(8) as u8 },
                     gas: *rng.pick(&[1i64, 1, 10, 100, 0, -1, 1_000_000]),
                     auth: if fault { user_fault(rng) } else { AuthVar::Right },
